@@ -285,6 +285,9 @@ def items(tier: str, seed: int) -> list[tuple[Any, ...]]:
         out.append(("kind", k.name, tier))
         out.append(("matches", k.name))
     out.append(("raw", tier))
+    for k in T.KINDS:
+        out.append(("reuse", k.name, tier))
+    out.append(("reuse-chain", tier))
     return out
 
 
@@ -330,6 +333,90 @@ def run_raw(res: Result, tier: str) -> None:
         for tail in (b"", b"\x00", p[1:2] or b"\x01", p[1:] + b"\xaa"):
             if p[0] + 0x40 <= 0xFF:
                 judge(res, req, p, "raw", "raw", bytes([p[0] + 0x40]) + tail, "right-service")
+
+
+# -- histories: one request object re-used and modified between probes ------------------------
+#
+# The verdict is a function of the request's current bytes and the reply.  A request object that
+# went through parse_pdu before and was then modified (``RawRequest.pdu`` setter, attribute
+# setters of the typed classes) must get the verdict a fresh object with the same bytes gets.
+
+
+def reuse_step(res: Result, req: Any, hist: list[str], typed: bool, kname: str, replies: list[bytes]) -> None:
+    s = G["service"]
+    qb = req.pdu
+    for rb in replies:
+        res.count("evaluations")
+        res.count("reuse_evaluations")
+        res.seen("nontrivial", ("reuse", tuple(hist), rb))
+        fresh = observe(s.RawRequest(qb), rb)
+        got = observe(req, rb)
+        if got != fresh:
+            res.violate(
+                f"C03|{kname}|reused-request-object|fresh={fresh}|reused={got}",
+                f"request object re-used after {len(hist) - 1} earlier probe(s) ({' -> '.join(h[:24] for h in hist)}), reply {rb.hex()[:40]}: "
+                f"parse_pdu says {got}, a fresh object with the same bytes gets {fresh}",
+                {"mode": "reuse", "typed": typed, "kind": kname, "states": hist, "reply": rb.hex()},
+            )
+
+
+def mutate_typed(obj: Any, kind: T.Kind, vals: dict[str, Any], want: bytes) -> bool:
+    for name, v in vals.items():
+        if hasattr(obj, name):
+            try:
+                setattr(obj, name, v)
+            except Exception:  # noqa: BLE001
+                return False
+    try:
+        return bool(obj.pdu == want)
+    except Exception:  # noqa: BLE001
+        return False
+
+
+def run_reuse(res: Result, kind: T.Kind, tier: str) -> None:
+    s = G["service"]
+    chosen = spread(list(T.value_sets(kind, "req", "small")), 5 if tier == "quick" else 9)
+    enc = [T.encode(kind, "req", v) for v in chosen]
+    gen = [genuine_replies(kind, v, 2) for v in chosen]
+    for i, va in enumerate(chosen):
+        for j, vb in enumerate(chosen):
+            if i == j or enc[i] == enc[j]:
+                continue
+            replies = gen[j] + gen[i] + [bytes([0x7F, kind.sid, 0x31])]
+            raw = s.RawRequest(enc[i])
+            for g in gen[i][:1]:
+                observe(raw, g)
+            raw.pdu = enc[j]
+            reuse_step(res, raw, [enc[i].hex(), enc[j].hex()], False, kind.name, replies)
+            obj = build_request(kind, va)
+            if obj is None or obj.pdu != enc[i]:
+                continue
+            for g in gen[i][:1]:
+                observe(obj, g)
+            if not mutate_typed(obj, kind, vb, enc[j]):
+                res.count("reuse_typed_not_settable")
+                continue
+            res.count("reuse_typed_mutations")
+            reuse_step(res, obj, [enc[i].hex(), enc[j].hex()], True, kind.name, replies)
+
+
+def run_reuse_chain(res: Result, tier: str) -> None:
+    """one RawRequest object walked through every request kind, forwards and backwards"""
+    s = G["service"]
+    states: list[tuple[T.Kind, bytes, list[bytes]]] = []
+    for k in T.KINDS:
+        vs = list(T.value_sets(k, "req", "small"))
+        for v in spread(vs, 2):
+            states.append((k, T.encode(k, "req", v), genuine_replies(k, v, 1)))
+    for order in (states, states[::-1]):
+        raw = s.RawRequest(order[0][1])
+        hist: list[str] = []
+        prev: list[bytes] = []
+        for k, qb, gen in order:
+            raw.pdu = qb
+            hist.append(qb.hex())
+            reuse_step(res, raw, hist[-18:], False, k.name, gen + prev + [bytes([0x7F, qb[0], 0x31])])
+            prev = gen
 
 
 # -- direct matches() --------------------------------------------------------------------------
@@ -434,8 +521,13 @@ def run_item(item: tuple[Any, ...]) -> Result:
     if what == "raw":
         run_raw(res, item[1])
         return res
+    if what == "reuse-chain":
+        run_reuse_chain(res, item[1])
+        return res
     kind = T.BY_NAME[item[1]]
-    if what == "kind":
+    if what == "reuse":
+        run_reuse(res, kind, item[2])
+    elif what == "kind":
         run_kind(res, kind, item[2])
     elif what == "matches":
         run_matches(res, kind)
@@ -461,6 +553,25 @@ def replay(doc: dict[str, Any]) -> Result:
         want, rclass = classify(qb, rb)
         print(f"   request {qb.hex()} as {type(req).__name__}; reply {rb.hex()}; class {rclass}; admissible {sorted(want)}; observed {observe(req, rb)}")
         judge(res, req, qb, "typed" if doc["typed"] else "raw", doc["kind"], rb, doc.get("src", "replay"))
+    elif doc["mode"] == "reuse":
+        states = [bytes.fromhex(x) for x in doc["states"]]
+        rb = bytes.fromhex(doc["reply"])
+        req = s.RawRequest(states[0])
+        if doc["typed"]:
+            k = T.BY_NAME[doc["kind"]]
+            allv = list(T.value_sets(k, "req", "small"))
+            va = next(v for v in allv if T.encode(k, "req", v) == states[0])
+            vb = next(v for v in allv if T.encode(k, "req", v) == states[-1])
+            req = build_request(k, va)
+            observe(req, (genuine_replies(k, va, 1) or [b"\x7f\x00\x31"])[0])
+            mutate_typed(req, k, vb, states[-1])
+        else:
+            for st in states:
+                req.pdu = st
+                observe(req, bytes([(st[0] + 0x40) & 0xFF]) + st[1:])
+            req.pdu = states[-1]
+        print(f"   request object walked through {[x.hex() for x in states]}; reply {rb.hex()}; fresh object: {observe(s.RawRequest(states[-1]), rb)}; re-used object: {observe(req, rb)}")
+        reuse_step(res, req, doc["states"], doc["typed"], doc["kind"], [rb])
     elif doc["mode"] == "matches":
         run_matches(res, T.BY_NAME[doc["kind"]])
     elif doc["mode"] == "nrc":
